@@ -32,6 +32,8 @@ def run(tier):
         _, r2, cs = vlib.tlc_chunked(PROP, "corpus_" + mod, mod, nchunks=8)
         rep.add_tlc(mod + "(corpus)", r2)
         keep = [c for c in cs if c["fn"] in SELF_DELIMITING and c["expect"]["k"] == "ok" and len(json.dumps(c["input"])) < 20000]
+        # (a caller-supplied content parser bounded by a length ARGUMENT is local to that window, not to its consumed bytes: MC_C13!BoundedRule)
+        keep = [c for c in keep if c["a"].get("sub") != "bounded"]
         corpus += keep if (thorough or mod != "MC_C04") else keep[::4]
     fz = os.path.join(d, "fuzz.ndjson")
     cpath = os.path.join(d, "corpus.ndjson")
